@@ -74,7 +74,23 @@ Faults == <<
   [t |-> Mark("BEGIN { q = 5; q = 6; ", Chars("q()"), "; q = 7 }"), class |-> "runtime", exact |-> FALSE],
   [t |-> Mark("BEGIN { q = [1]; q = [2]; for (k in q) { ", Chars("q[0 - 9]"), " } }"), class |-> "runtime", exact |-> FALSE],
   [t |-> Mark("BEGIN { q = 1; q = 2; ", Chars("q < [1]"), " }"), class |-> "runtime", exact |-> FALSE],
-  [t |-> Mark("BEGIN { q = 1; ", Chars("q + 1 = 2"), " }"), class |-> "syntax", exact |-> FALSE]
+  [t |-> Mark("BEGIN { q = 1; ", Chars("q + 1 = 2"), " }"), class |-> "syntax", exact |-> FALSE],
+  \* a byte order mark is not part of the language: reported where it stands (which of its bytes is the
+  \* illegal one is the lexer's business)
+  [t |-> Mark("", <<"EF", "BB", "BF">>, "BEGIN { x = 1 }"), class |-> "syntax", exact |-> FALSE],
+  [t |-> Mark("BEGIN { x = 1 } ", <<"EF", "BB", "BF">>, ""), class |-> "syntax", exact |-> FALSE],
+  \* faults in the patterns of a match (not in its arms): at the pattern
+  [t |-> Mark("BEGIN { x = match (1) { ", Chars("'two\\z'"), " => 1 } }"), class |-> "runtime", exact |-> FALSE],
+  [t |-> Mark("BEGIN { x = match (1) { 0 => 1, ", Chars("-1"), " => 2, _ => 3 } }"), class |-> "runtime", exact |-> FALSE],
+  [t |-> Mark("BEGIN { x = match (1) { 0 => 1, ", Chars("1 + 1"), " => 2 } }"), class |-> "runtime", exact |-> FALSE],
+  [t |-> Mark("BEGIN { x = match ([1]) { ", Chars("5"), " => 1 } }"), class |-> "runtime", exact |-> FALSE],
+  [t |-> Mark("BEGIN { x = match ([[1]]) { [", Chars("'a'"), "] => 1 } }"), class |-> "runtime", exact |-> FALSE],
+  \* the refusal at the depth limit when the refused frame is that of a match arm (entered through 0, 1, 2 calls)
+  [t |-> Mark("function w(n) { return m(n) } function m(n) { return ", Chars("match (n) { z => m(z + 1) }"), " } BEGIN { w(0) }"), class |-> "runtime", exact |-> FALSE],
+  [t |-> Mark("function v(n) { return w(n) } function w(n) { return m(n) } function m(n) { return ", Chars("match (n) { z => m(z + 1) }"), " } BEGIN { v(0) }"), class |-> "runtime", exact |-> FALSE],
+  [t |-> Mark("function m(n) { return ", Chars("match (n) { z => match (z) { y => m(y + 1) } }"), " } BEGIN { m(0) }"), class |-> "runtime", exact |-> FALSE],
+  [t |-> Mark("function w(n) { return m(n) } function m(n) { return ", Chars("match (n) { z => match (z) { y => m(y + 1) } }"), " } BEGIN { w(0) }"), class |-> "runtime", exact |-> FALSE],
+  [t |-> Mark("function m(n) { ", Chars("match (n) { z => { return m(z + 1) } }"), " } BEGIN { x = 1 + m(0) }"), class |-> "runtime", exact |-> FALSE]
 >>
 
 VARIABLES pre, fi, post, lastNL, done
